@@ -10,18 +10,26 @@ import (
 	"flag"
 	"fmt"
 	"os"
+	"strings"
 )
 
 type emitter struct {
-	ops     *bufio.Writer
-	classes *bufio.Writer
-	n       int
+	ops      *bufio.Writer
+	classes  *bufio.Writer
+	n        int
+	twinImpl bool
 }
 
 func (e *emitter) emit(class, line string) {
 	fmt.Fprintln(e.ops, line)
 	fmt.Fprintln(e.classes, class)
 	e.n++
+	// every API-level curve op is also run against the code-shaped model (impl.*)
+	if e.twinImpl && strings.HasPrefix(line, "curve.") {
+		fmt.Fprintln(e.ops, "impl."+line[len("curve."):])
+		fmt.Fprintln(e.classes, "impl."+class)
+		e.n++
+	}
 }
 
 type genFunc func(e *emitter, r *rng, thorough bool)
@@ -34,6 +42,9 @@ func main() {
 		os.Exit(2)
 	}
 	initNets()
+	if os.Args[1] != "conc" {
+		initCurveVars()
+	}
 	switch os.Args[1] {
 	case "gen":
 		fs := flag.NewFlagSet("gen", flag.ExitOnError)
@@ -56,7 +67,7 @@ func main() {
 		if err != nil {
 			panic(err)
 		}
-		e := &emitter{ops: bufio.NewWriterSize(of, 1<<20), classes: bufio.NewWriterSize(cf, 1<<20)}
+		e := &emitter{ops: bufio.NewWriterSize(of, 1<<20), classes: bufio.NewWriterSize(cf, 1<<20), twinImpl: *prop == "C01"}
 		g(e, &rng{s: *seed*0x9e3779b97f4a7c15 + 0x1234567}, *tier == "thorough")
 		e.ops.Flush()
 		e.classes.Flush()
